@@ -8,6 +8,7 @@ import PjVerif.Drive.Clone
 import PjVerif.Drive.CritPath
 import PjVerif.Drive.Csv
 import PjVerif.Drive.Print
+import PjVerif.Drive.Render
 open Lean Pj.Drive
 
 def dispatch (j : Json) : Json :=
@@ -22,6 +23,7 @@ def dispatch (j : Json) : Json :=
   | "csvtext" => runCsvText j
   | "csvrec" => runCsvRec j
   | "print" => runPrint j
+  | "render" => runRender j
   | f => mkObj [("id", fld j "id"), ("error", .str s!"unknown family {f}")]
 
 def main : IO Unit := do
